@@ -277,7 +277,7 @@ pub fn run_c18(run: &mut Run, replay: Option<&std::path::Path>) -> anyhow::Resul
             }
             let shared = Arc::new(Mutex::new(TrigShared::default()));
             let layer = InflightLimitLayer::new(limit, if block { WaitMode::Block } else { WaitMode::ReturnError });
-            let svc = layer.layer(TrigSvc(shared.clone()));
+            let mut svc = layer.layer(TrigSvc(shared.clone()));
             out.push((format!("inflight.reset limit={limit} mode={}", if block { "block" } else { "error" }), "ok".into(), None));
             let results: Arc<Mutex<HashMap<u64, Result<u16, (u16, Option<String>)>>>> = Arc::new(Mutex::new(HashMap::new()));
             let mut handles: HashMap<u64, tokio::task::JoinHandle<()>> = HashMap::new();
@@ -332,10 +332,20 @@ pub fn run_c18(run: &mut Run, replay: Option<&std::path::Path>) -> anyhow::Resul
                         if let Some(p) = p {
                             req = req.with_header("p", p.to_string()).with_extension(pid(p));
                         }
-                        let s = svc.clone();
+                        // the layer may be driven through one long-lived instance (`ready().call()`) or through
+                        // clones taken at any time - before or after the instance served other peers
                         let res = results.clone();
+                        let fut: std::pin::Pin<Box<dyn std::future::Future<Output = _> + Send>> = if r % 3 == 1 {
+                            use tower::Service;
+                            match futures::future::poll_fn(|cx| svc.poll_ready(cx)).await {
+                                Ok(()) => Box::pin(svc.call(req)),
+                                Err(e) => Box::pin(async move { Err(e) }),
+                            }
+                        } else {
+                            Box::pin(svc.clone().oneshot(req))
+                        };
                         handles.insert(r, tokio::spawn(async move {
-                            let out = s.oneshot(req).await;
+                            let out = fut.await;
                             let v = match out {
                                 Ok(resp) => Ok(resp.status().to_u16()),
                                 Err(st) => Err((st.status().to_u16(), None)),
